@@ -38,3 +38,16 @@ package core
 //@ spec fun rstop(a []int64) int = ite(len(a) >= 2, a[1], a[0])
 //@ spec fun rstep(a []int64) int = ite(len(a) == 3, a[2], 1)
 //@ spec fun rbefore(a []int64, x int) bool = (rstep(a) > 0 && x < rstop(a)) || (rstep(a) < 0 && x > rstop(a))
+
+// C19: the typed-slice conversions (toBoolSlice, toStringSlice, toIntSlice, toFloatSlice) convert element by element and
+// give the zero value for an element that cannot be converted. toSlice assembles the result through reflect; its
+// contract is over the sequence of reflect stores it performs (activation trace of Value.Set: location, stored value):
+// for every k, the scratch value is set to conv(from[k]) - the converted element, or the zero value of the element
+// type when from[k] is nil or not convertible - and is then stored into element k of the new slice; finally the new
+// slice is stored into the target. (That these stores produce the typed slice is reflect's semantics: trusted.)
+//@ spec fun elemConv(x any, tt reflect.Type) reflect.Value = ite(rvValid(valueOfS(x)) && typeConvertible(rvTypeOf(valueOfS(x)), tt), rvConvert(valueOfS(x), tt), rvZero(tt))
+//@ func toSlice
+//@ props C19
+//@ traces (reflect.Value).Set
+//@ loop 0 invariant [C19] stores: 0 <= i && i <= len(from) && ncalls() == 2*i && (forall k int :: 0 <= k && k < i ==> calleeIs(2*k, "(reflect.Value).Set") && arg(2*k) == val && res(2*k) == elemConv(from[k], tt) && calleeIs(2*k+1, "(reflect.Value).Set") && arg(2*k+1) == rvIndexV(slice, k) && res(2*k+1) == val)
+//@ ensures [C19] elementwise: ncalls() == 2*len(from) + 1 && (forall k int :: 0 <= k && k < len(from) ==> arg(2*k) == val && res(2*k) == elemConv(from[k], tt) && arg(2*k+1) == rvIndexV(slice, k) && res(2*k+1) == val) && arg(2*len(from)) == obj && res(2*len(from)) == slice
